@@ -112,13 +112,23 @@ var c04PatchKinds = []string{"identity", "same-kind", "constant", "constant-nil"
 	"leaf:string", "leaf:bool", "leaf:float", "leaf:pointer", "leaf:array", "leaf:map", "leaf:call", "leaf:builtin", "leaf:cond", "leaf:pair", "leaf:closure"}
 
 var c04Operators = []string{"+:JoinSp", "/:SafeDiv", "-:SubF", "+:Nope", "+:I", "==:Inc", "+:Sum", "*:Boom", "+:NilFn", "and:JoinSp"}
-var c04ConstExprs = []string{"Sq", "Div", "Rep", "Coalesce", "Nope", "I", "Boom", "NilFn", "Inc"}
+var c04ConstExprs = []string{"Sq", "Div", "Rep", "Coalesce", "Nope", "I", "Boom", "NilFn", "Inc", "Fn", "V"}
 
 type c04Bad struct {
 	I  string
 	Xs int
 	B  []int
 	S  float64
+}
+
+// an environment whose type has members that its VALUE cannot deliver: an embedded pointer that is nil
+type c04Inner struct {
+	Fn func(int) int
+	V  int
+}
+type c04EmbNil struct {
+	*c04Inner
+	I int
 }
 
 func (o c04Opts) sampleEnv(spec *core.EnvSpec) interface{} {
@@ -133,6 +143,10 @@ func (o c04Opts) sampleEnv(spec *core.EnvSpec) interface{} {
 		return core.AsMap(e)
 	case "typedmap":
 		return map[string]int{"I": 1, "J": 2, "a": 3}
+	case "nilptr":
+		return (*core.Env)(nil)
+	case "embnil":
+		return c04EmbNil{I: 1}
 	case "nilmap":
 		m := core.AsMap(e)
 		m["NilFn"] = (func(int) int)(nil)
@@ -186,6 +200,10 @@ func (o c04Opts) runEnvs(spec *core.EnvSpec) []interface{} {
 		envs = append(envs, &e)
 	case "typedmap":
 		envs = append(envs, map[string]int{"I": 5})
+	case "nilptr":
+		envs = append(envs, &e, (*core.Env)(nil))
+	case "embnil":
+		envs = append(envs, c04EmbNil{I: 2}, c04EmbNil{c04Inner: &c04Inner{Fn: func(i int) int { return i }, V: 1}})
 	default:
 		envs = append(envs, e)
 	}
@@ -202,12 +220,30 @@ func (o c04Opts) runEnvs(spec *core.EnvSpec) []interface{} {
 		m["Var"] = func(...interface{}) interface{} { panic(fmt.Errorf("var panics")) }
 		m["L"] = func(int, int) int { var p *core.Elem; return p.V }
 		envs = append(envs, m)
+		// functions that panic with values that are awkward to render: an error whose Error method panics (a
+		// typed-nil pointer), a Stringer that panics, nil, a struct, an error wrapping itself in a long text
+		m2 := core.AsMap(e)
+		m2["Inc"] = func(int) int { var pe *c04Err; panic(error(pe)) }
+		m2["Var"] = func(...interface{}) interface{} { panic(c04BadStringer{}) }
+		m2["L"] = func(int, int) int { panic(struct{ A, B int }{1, 2}) }
+		m2["Cat"] = func(string, string) string { panic(fmt.Errorf("%s", strings.Repeat("long\n", 2000))) }
+		m2["Sq"] = func(int) int { panic(nil) }
+		m2["Half"] = func(float64) float64 { panic(&os.PathError{}) }
+		envs = append(envs, m2)
 	case "nil-members":
 		z := core.Env{}
 		envs = append(envs, z, &z)
 	}
 	return envs
 }
+
+type c04Err struct{ msg string }
+
+func (e *c04Err) Error() string { return e.msg } // panics for a nil receiver
+
+type c04BadStringer struct{}
+
+func (c04BadStringer) String() string { panic("String panics") }
 
 // ---- watchdog
 
@@ -538,7 +574,7 @@ func genC04(t *rapid.T, cfg *core.Config) *core.Case {
 		c.Source = head + c.Source + "\n:\n" + c.Source
 		c.P["multiline"] = true
 	}
-	c.P["env"] = rapid.SampledFrom([]string{"none", "struct", "struct", "ptr", "map", "map", "typedmap", "nilmap"}).Draw(t, "env")
+	c.P["env"] = rapid.SampledFrom([]string{"none", "struct", "struct", "ptr", "map", "map", "typedmap", "nilmap", "nilptr", "embnil"}).Draw(t, "env")
 	c.P["allow"] = rapid.IntRange(0, 3).Draw(t, "allow") == 0
 	c.P["opt"] = rapid.IntRange(0, 3).Draw(t, "opt") != 0
 	c.P["directive"] = rapid.SampledFrom([]string{"", "", "", "bool", "int64", "float64"}).Draw(t, "directive")
@@ -555,7 +591,7 @@ func genC04(t *rapid.T, cfg *core.Config) *core.Case {
 	}
 	if fn := c.Str("cefn"); fn != "" {
 		ces = append(ces, fn)
-		if c.Str("env") == "none" || c.Str("env") == "typedmap" {
+		if e := c.Str("env"); e == "none" || e == "typedmap" || e == "embnil" {
 			c.P["env"] = "struct"
 		}
 	}
